@@ -92,6 +92,16 @@ def main():
         ok, msg = translate()
         if not ok:
             broken.append(('translator', msg[-400:]))
+        # a generator that failed breaks only the obligations whose module imports the generated file it could not write
+        try:
+            gfailed = json.load(open(os.path.join(LEAN, 'SqlModel', 'Generated', 'manifest.json'))).get('failed', {})
+        except Exception:
+            gfailed = {}
+        if gfailed:
+            closure = import_closure(lean_rel)
+            for gname, gmsg in gfailed.items():
+                if 'SqlModel/Generated/' + gname in closure:
+                    broken.append(('translator:' + gname, gmsg[:300]))
         if not a.no_build:
             okb, build_out = lake_build([lean_module])
             if not okb:
@@ -138,7 +148,7 @@ def main():
             broken.append(('leanchecker', leanchecker))
     failed_names = {b[0] for b in broken}
     obligations = len(thms)
-    discharged = 0 if any(b[0] in ('translator', 'audit', lean_module) for b in broken) else \
+    discharged = 0 if any(b[0] in ('translator', 'audit', lean_module) or b[0].startswith('translator:') for b in broken) else \
         sum(1 for n, _ in thms if n not in failed_names)
 
     ctx = Ctx(prop, a.tier, seed)
